@@ -105,6 +105,12 @@ class C18(Prop):
             else:
                 a = [E(rng.sample(keys, rng.randint(1, len(keys))))]
             steps.append({"t": "call", "m": m, "a": a, "k": k})
+            if nc > 1 and rng.random() < 0.03:
+                # the application changes the public `caches` list: a newer cache is put in front, the old
+                # primary retired, the order reversed
+                order = rng.choice([list(range(nc))[::-1], [nc - 1] + list(range(nc - 1)), list(range(1, nc)),
+                                    list(range(1, nc)) + [0]])
+                steps.append({"t": "recache", "order": order, "how": rng.choice(["assign", "inplace"])})
         return [{"property": self.id, "world": w, "steps": steps}]
 
     def hooks(self, scn):
@@ -115,14 +121,20 @@ class C18(Prop):
         w = res.world
         ck = scn["world"]["client_kwargs"]
         pfx = codec.dec(ck.get("key_prefix", E(b"")))
-        nc = len(scn["world"]["nodes"])
+        nc0 = len(scn["world"]["nodes"])
 
         def wk(k):
             return pfx + (k.encode() if isinstance(k, str) else k)
 
+        recache = [(i, st["order"]) for i, st in enumerate(scn["steps"]) if st["t"] == "recache"]
         for rec in res.calls:
             if rec.step < 0:
                 continue
+            order = list(range(nc0))
+            for i, o in recache:
+                if i < rec.step:
+                    order = list(o)     # positions -> original cache (= server) index; always relative to the original
+            nc = len(order)
             args, kwargs = res.extra["args"][rec.step]
             m = rec.method
             # servers visited, in order (first socket event per server)
@@ -135,13 +147,14 @@ class C18(Prop):
             cmds = [(c[0], c[1], c[2], c[3]) for c in rec.commands]
             snap = rec.extra["snap"]
             health = rec.extra["health"]
+            first = order[0]
             if m in WRITES:
-                if visited not in ([0], []):
-                    out.append(viol("write-touched-a-fallback-cache", rec, visited=visited))
+                if visited not in ([first], []):
+                    out.append(viol("write-touched-a-fallback-cache", rec, visited=visited, primary=first))
                     continue
                 want = self.intent(m, args, kwargs, wk)
-                got = [(c[1], c[2], c[3]) for c in cmds if c[0] == 0]
-                if health[0] != "up":
+                got = [(c[1], c[2], c[3]) for c in cmds if c[0] == first]
+                if health[first] != "up":
                     continue          # unreachable primary: the write is lost or raises; it stayed local, checked above
                 if got != want:
                     out.append(viol("write-command-differs-from-call", rec, want=repr(want)[:200], got=repr(got)[:200]))
@@ -150,15 +163,17 @@ class C18(Prop):
             keys = list(args[0]) if m in ("get_many", "gets_many") else [args[0]]
             wks = [wk(k) for k in keys]
             stop = None
-            for ci in range(nc):
+            stop_pos = None
+            for pos, ci in enumerate(order):
                 if health[ci] != "up":
                     continue
                 if any(x in snap[ci] for x in wks):
                     stop = ci
+                    stop_pos = pos
                     break
-            expect_visit = list(range(nc)) if stop is None else list(range(stop + 1))
-            if health[0] != "up":
-                continue
+            expect_visit = list(order) if stop is None else list(order[:stop_pos + 1])
+            if health[first] != "up" or (0 in order and health[0] != "up"):
+                continue          # cache 0 is the only one built without ignore_exc: when it is down a read may raise
             if visited != expect_visit:
                 disc = "stopped-early" if len(visited) < len(expect_visit) else "went-too-far"
                 out.append(viol("read-visited-wrong-caches", rec, disc="%s.%s" % (m, disc), visited=visited,
